@@ -42,7 +42,10 @@ Inductive verb :=
 Inductive txclass := TxPlain | TxB64 | TxEmpty.
 
 (* the server's choice for one position *)
-Inductive decision := DOk | DReply (code : N) (tx : txclass) | DDrop | DStall.
+(* DWrite (DATA position): 354, and from then on the server does not read any more: the client's writes block until
+   the write deadline ([fail] = false) or fail at once (broken pipe); [late]: the message is so short that nothing reaches
+   the transport before the final flush in dataCloser.Close *)
+Inductive decision := DOk | DReply (code : N) (tx : txclass) | DDrop | DStall | DWrite (fail late : bool).
 
 (* TLS handshake oracle (crypto/tls is not modelled): wrong-name / untrusted certificate / garbage are all HsFail *)
 Inductive hs_oracle := HsOk | HsFail | HsStall.
@@ -87,32 +90,36 @@ Record srv := mkSrv {
   stls     : bool;
   slog     : list (verb * bool * N);   (* processed positions (verb, inside TLS, reply code; 0 = none), reversed *)
   queue    : list reply;        (* replies on the wire, not yet read *)
-  refuse   : nat                (* dial attempts that fail (connection refused) before the server accepts one *)
+  refuse   : nat;               (* dial attempts that fail (connection refused) before the server accepts one *)
+  wmode    : option (bool * bool)   (* the server has stopped reading: Some (fail, late), see DWrite *)
 }.
 
 Definition set_script (s : srv) (x : list decision) : srv :=
-  mkSrv x (mute s) (caps s) (caps_tls s) (hs s) (sopen s) (silent s) (sauth s) (sdata s) (shs s) (stls s) (slog s) (queue s) (refuse s).
+  mkSrv x (mute s) (caps s) (caps_tls s) (hs s) (sopen s) (silent s) (sauth s) (sdata s) (shs s) (stls s) (slog s) (queue s) (refuse s) (wmode s).
 Definition set_mute (s : srv) (x : option nat) : srv :=
-  mkSrv (script s) x (caps s) (caps_tls s) (hs s) (sopen s) (silent s) (sauth s) (sdata s) (shs s) (stls s) (slog s) (queue s) (refuse s).
+  mkSrv (script s) x (caps s) (caps_tls s) (hs s) (sopen s) (silent s) (sauth s) (sdata s) (shs s) (stls s) (slog s) (queue s) (refuse s) (wmode s).
 Definition set_sopen (s : srv) (x : bool) : srv :=
-  mkSrv (script s) (mute s) (caps s) (caps_tls s) (hs s) x (silent s) (sauth s) (sdata s) (shs s) (stls s) (slog s) (queue s) (refuse s).
+  mkSrv (script s) (mute s) (caps s) (caps_tls s) (hs s) x (silent s) (sauth s) (sdata s) (shs s) (stls s) (slog s) (queue s) (refuse s) (wmode s).
 Definition set_silent (s : srv) (x : bool) : srv :=
-  mkSrv (script s) (mute s) (caps s) (caps_tls s) (hs s) (sopen s) x (sauth s) (sdata s) (shs s) (stls s) (slog s) (queue s) (refuse s).
+  mkSrv (script s) (mute s) (caps s) (caps_tls s) (hs s) (sopen s) x (sauth s) (sdata s) (shs s) (stls s) (slog s) (queue s) (refuse s) (wmode s).
 Definition set_sauth (s : srv) (x : option (nat * bytes)) : srv :=
-  mkSrv (script s) (mute s) (caps s) (caps_tls s) (hs s) (sopen s) (silent s) x (sdata s) (shs s) (stls s) (slog s) (queue s) (refuse s).
+  mkSrv (script s) (mute s) (caps s) (caps_tls s) (hs s) (sopen s) (silent s) x (sdata s) (shs s) (stls s) (slog s) (queue s) (refuse s) (wmode s).
 Definition set_sdata (s : srv) (x : bool) : srv :=
-  mkSrv (script s) (mute s) (caps s) (caps_tls s) (hs s) (sopen s) (silent s) (sauth s) x (shs s) (stls s) (slog s) (queue s) (refuse s).
+  mkSrv (script s) (mute s) (caps s) (caps_tls s) (hs s) (sopen s) (silent s) (sauth s) x (shs s) (stls s) (slog s) (queue s) (refuse s) (wmode s).
 Definition set_shs (s : srv) (x : bool) : srv :=
-  mkSrv (script s) (mute s) (caps s) (caps_tls s) (hs s) (sopen s) (silent s) (sauth s) (sdata s) x (stls s) (slog s) (queue s) (refuse s).
+  mkSrv (script s) (mute s) (caps s) (caps_tls s) (hs s) (sopen s) (silent s) (sauth s) (sdata s) x (stls s) (slog s) (queue s) (refuse s) (wmode s).
 Definition set_stls (s : srv) (x : bool) : srv :=
-  mkSrv (script s) (mute s) (caps s) (caps_tls s) (hs s) (sopen s) (silent s) (sauth s) (sdata s) (shs s) x (slog s) (queue s) (refuse s).
+  mkSrv (script s) (mute s) (caps s) (caps_tls s) (hs s) (sopen s) (silent s) (sauth s) (sdata s) (shs s) x (slog s) (queue s) (refuse s) (wmode s).
 Definition set_slog (s : srv) (x : list (verb * bool * N)) : srv :=
-  mkSrv (script s) (mute s) (caps s) (caps_tls s) (hs s) (sopen s) (silent s) (sauth s) (sdata s) (shs s) (stls s) x (queue s) (refuse s).
+  mkSrv (script s) (mute s) (caps s) (caps_tls s) (hs s) (sopen s) (silent s) (sauth s) (sdata s) (shs s) (stls s) x (queue s) (refuse s) (wmode s).
 Definition set_queue (s : srv) (x : list reply) : srv :=
-  mkSrv (script s) (mute s) (caps s) (caps_tls s) (hs s) (sopen s) (silent s) (sauth s) (sdata s) (shs s) (stls s) (slog s) x (refuse s).
+  mkSrv (script s) (mute s) (caps s) (caps_tls s) (hs s) (sopen s) (silent s) (sauth s) (sdata s) (shs s) (stls s) (slog s) x (refuse s) (wmode s).
 
 Definition set_refuse (s : srv) (x : nat) : srv :=
-  mkSrv (script s) (mute s) (caps s) (caps_tls s) (hs s) (sopen s) (silent s) (sauth s) (sdata s) (shs s) (stls s) (slog s) (queue s) x.
+  mkSrv (script s) (mute s) (caps s) (caps_tls s) (hs s) (sopen s) (silent s) (sauth s) (sdata s) (shs s) (stls s) (slog s) (queue s) x (wmode s).
+
+Definition set_wmode (s : srv) (x : option (bool * bool)) : srv :=
+  mkSrv (script s) (mute s) (caps s) (caps_tls s) (hs s) (sopen s) (silent s) (sauth s) (sdata s) (shs s) (stls s) (slog s) (queue s) (refuse s) x.
 
 Definition pop_decision (s : srv) : decision * srv :=
   match script s with
@@ -164,6 +171,11 @@ Definition apply_decision (s : srv) (v : verb) (d : decision) : srv :=
       let c := default_code v in
       let lines := match v with VEhlo => if stls s then caps_tls s else caps s | _ => [] end in
       after_reply (deliver (log_pos s v c) (mkReply c TxPlain lines)) v c
+  | DWrite f l =>
+      let c := default_code v in
+      let lines := match v with VEhlo => if stls s then caps_tls s else caps s | _ => [] end in
+      let s1 := after_reply (deliver (log_pos s v c) (mkReply c TxPlain lines)) v c in
+      match v with VData => set_wmode s1 (Some (f, l)) | _ => s1 end
   | DReply c tx =>
       let lines := match v with
                    | VEhlo => if ok_class c && (match tx with TxPlain => true | _ => false end)
@@ -229,7 +241,9 @@ Record cstate := mkCs {
   sc_tls    : bool;                  (* smtp.Client.tls *)
   connected : bool;                  (* smtp.Client.isConnected *)
   pipe_out  : nat;                   (* textproto.Pipeline of c.Text: ids handed out whose EndResponse has not happened *)
-  endresp   : bool                   (* Client.cmd calls EndResponse on every path after StartResponse (T1) *)
+  endresp   : bool;                  (* Client.cmd calls EndResponse on every path after StartResponse (T1) *)
+  mu_held   : bool;                  (* smtp.Client.mutex was locked and never released (a return path without Unlock) *)
+  mu_ok     : bool                   (* every locking method of smtp.Client / dataCloser unlocks on every return path (T1) *)
 }.
 
 (* elapsed time in units of the configured timeout: every SetDeadline (an "arming point") grants one period; a blocking
@@ -237,14 +251,16 @@ Record cstate := mkCs {
 Record clock := mkClk {
   fresh : bool;      (* a deadline is set and has not expired yet *)
   arms  : nat;       (* SetDeadline calls so far *)
-  spent : nat        (* periods waited out *)
+  spent : nat;       (* periods waited out *)
+  wstuck : bool      (* a write through c.Text timed out: its bufio.Writer keeps that error, later writes fail with it at once *)
 }.
-Definition clk0 : clock := mkClk false O O.
+Definition clk0 : clock := mkClk false O O false.
 
 Record world := mkW { w_srv : srv; w_conn : conn; w_cs : cstate; w_trace : list event; w_clk : clock }.
 
-Definition cs0f (er : bool) : cstate := mkCs false None None false false O er.
-Definition cs0 : cstate := cs0f Gen.smtp_cmd_endresponse_always.
+Definition cs0g (er mo : bool) : cstate := mkCs false None None false false O er false mo.
+Definition cs0f (er : bool) : cstate := cs0g er true.
+Definition cs0 : cstate := cs0g Gen.smtp_cmd_endresponse_always Gen.smtp_mutex_released_always.
 Definition conn0 : conn := mkConn false false false false false.
 
 Definition ev (e : event) (w : world) : world := mkW (w_srv w) (w_conn w) (w_cs w) (e :: w_trace w) (w_clk w).
@@ -256,10 +272,14 @@ Definition with_clk (w : world) (k : clock) : world := mkW (w_srv w) (w_conn w) 
 (* a wait that is ended by the deadline *)
 Definition spend (w : world) : world :=
   let k := w_clk w in
-  if fresh k then with_clk w (mkClk false (arms k) (S (spent k))) else w.
+  if fresh k then with_clk w (mkClk false (arms k) (S (spent k)) (wstuck k)) else w.
 (* SetDeadline(now + timeout) *)
 Definition grant (w : world) : world :=
-  let k := w_clk w in with_clk w (mkClk true (S (arms k)) (spent k)).
+  let k := w_clk w in with_clk w (mkClk true (S (arms k)) (spent k) (wstuck k)).
+Definition stick (w : world) : world :=
+  let k := w_clk w in with_clk w (mkClk (fresh k) (arms k) (spent k) true).
+
+Inductive wres := WOk | WFail | WTimeout | WHang.
 
 Inductive prim : Type -> Type :=
 | PConnect (ssl bounded : bool) : prim (option err)   (* the dial function (implicit TLS: TCP + handshake); bounded: its
@@ -267,6 +287,7 @@ Inductive prim : Type -> Type :=
 | PConnTls : prim bool                         (* is the connection a tls.Conn? (smtp.NewClient sets c.tls by a type assertion on the connection) *)
 | PCmd (expect : N) (v : verb) : prim (res reply)   (* Client.cmd: Text.Cmd (Next, write), StartResponse, ReadResponse, EndResponse *)
 | PWrite (v : verb) : prim bool                (* write one line; false = the write failed *)
+| PWriteContent : prim wres                    (* message.WriteTo through dataCloser.Write *)
 | PRead : prim rres                            (* read one reply *)
 | PHandshake : prim (option err)               (* client side of the TLS handshake after STARTTLS *)
 | PArm : prim bool                             (* SetDeadline(now + timeout); false = failed (closed connection) *)
@@ -303,10 +324,38 @@ Definition classify (expect : N) (r : rres) : res reply :=
   | RHang => Err EHang
   end.
 
-Definition do_write (v : verb) (w : world) : bool * world :=
-  if negb (copen (w_conn w)) then (false, w)
-  else if negb (sopen (w_srv w)) then (false, w)
-  else (true, with_srv (ev (ECmd v (negb (ctls (w_conn w)))) w) (srv_line (w_srv w) v)).
+(* a write to a peer that has stopped reading: blocks until the write deadline, or fails *)
+Definition blocked_write (fail : bool) (w : world) : wres * world :=
+  let c := w_conn w in
+  if fail then (WFail, w)
+  else if wstuck (w_clk w) then (WTimeout, w)
+  else if armed c then (WTimeout, stick (spend w))
+  else (WHang, with_conn w (mkConn (opened c) (copen c) (ctls c) false true)).
+
+Definition do_write (v : verb) (w : world) : wres * world :=
+  if negb (copen (w_conn w)) then (WFail, w)
+  else if negb (sopen (w_srv w)) then (WFail, w)
+  else match wmode (w_srv w) with
+  | Some (f, _) => blocked_write f w
+  | None => (WOk, with_srv (ev (ECmd v (negb (ctls (w_conn w)))) w) (srv_line (w_srv w) v))
+  end.
+
+(* message.WriteTo(writer) through dataCloser.Write: everything but what stays in the bufio buffer until the final flush *)
+Definition do_write_content (w : world) : wres * world :=
+  if negb (copen (w_conn w)) then (WFail, w)
+  else if negb (sopen (w_srv w)) then (WFail, w)
+  else match wmode (w_srv w) with
+  | Some (f, false) => blocked_write f w
+  | _ => (WOk, w)
+  end.
+
+Definition set_mu (w : world) (b : bool) : world :=
+  let k := w_cs w in
+  with_cs w (mkCs (didHello k) (helloErr k) (ext k) (sc_tls k) (connected k) (pipe_out k) (endresp k) b (mu_ok k)).
+
+(* a method of smtp.Client that takes c.mutex while it is held for ever *)
+Definition mutex_hang (w : world) : world :=
+  let c := w_conn w in with_conn w (mkConn (opened c) (copen c) (ctls c) (armed c) true).
 
 Definition do_read (w : world) : rres * world :=
   let c := w_conn w in
@@ -321,7 +370,7 @@ Definition do_read (w : world) : rres * world :=
   end.
 
 Definition set_pipe (w : world) (n : nat) : world :=
-  let k := w_cs w in with_cs w (mkCs (didHello k) (helloErr k) (ext k) (sc_tls k) (connected k) n (endresp k)).
+  let k := w_cs w in with_cs w (mkCs (didHello k) (helloErr k) (ext k) (sc_tls k) (connected k) n (endresp k) (mu_held k) (mu_ok k)).
 
 Definition is_reply (r : rres) : bool := match r with RReply _ => true | _ => false end.
 
@@ -355,9 +404,14 @@ Definition run_prim {B : Type} (p : prim B) (w : world) : B * world :=
          response is never ended.  StartResponse(id) waits -- without any deadline -- until every earlier id's
          EndResponse has happened.  EndResponse follows the read on every path iff [endresp] (otherwise not when the
          read failed). *)
-      let (ok, w1) := do_write v w in
-      if negb ok then (Err EWrite, set_pipe w1 (S (pipe_out (w_cs w1))))
-      else match pipe_out (w_cs w1) with
+      if mu_held (w_cs w) then (Err EHang, mutex_hang w) else
+      let (wr, w1) := do_write v w in
+      match wr with
+      | WFail => (Err EWrite, set_pipe w1 (S (pipe_out (w_cs w1))))
+      | WTimeout => (Err ETimeout, set_pipe w1 (S (pipe_out (w_cs w1))))
+      | WHang => (Err EHang, w1)
+      | WOk =>
+      match pipe_out (w_cs w1) with
       | S _ =>
           let c := w_conn w1 in
           (Err EHang, with_conn w1 (mkConn (opened c) (copen c) (ctls c) (armed c) true))
@@ -365,7 +419,12 @@ Definition run_prim {B : Type} (p : prim B) (w : world) : B * world :=
           let (r, w2) := do_read w1 in
           (classify expect r, if endresp (w_cs w2) || is_reply r then w2 else set_pipe w2 1%nat)
       end
-  | PWrite v => do_write v w
+      end
+  | PWrite v => let (wr, w1) := do_write v w in ((match wr with WOk => true | _ => false end), w1)
+  | PWriteContent =>
+      (* a failed dataCloser.Write: the mutex it took stays locked unless every return path unlocks it *)
+      let (wr, w1) := do_write_content w in
+      (wr, match wr with WOk => w1 | _ => if mu_ok (w_cs w1) then w1 else set_mu w1 true end)
   | PRead => do_read w
   | PHandshake =>
       let c := w_conn w in
@@ -388,19 +447,21 @@ Definition run_prim {B : Type} (p : prim B) (w : world) : B * world :=
       end
   | PArm =>
       let c := w_conn w in
+      if mu_held (w_cs w) then (false, mutex_hang w) else
       if copen c then (true, grant (ev EArm (with_conn w (mkConn (opened c) (copen c) (ctls c) true (hung c)))))
       else (false, w)
   | PConnClose => (tt, do_close w)
   | PClientClose =>
+      if mu_held (w_cs w) then (tt, mutex_hang w) else
       let w1 := do_close w in
       let k := w_cs w1 in
-      (tt, with_cs w1 (mkCs (didHello k) (helloErr k) (ext k) (sc_tls k) false (pipe_out k) (endresp k)))
+      (tt, with_cs w1 (mkCs (didHello k) (helloErr k) (ext k) (sc_tls k) false (pipe_out k) (endresp k) (mu_held k) (mu_ok k)))
   | PGetCs => (w_cs w, w)
-  | PSetHello e => let k := w_cs w in (tt, with_cs w (mkCs true e (ext k) (sc_tls k) (connected k) (pipe_out k) (endresp k)))
-  | PSetExt x => let k := w_cs w in (tt, with_cs w (mkCs (didHello k) (helloErr k) x (sc_tls k) (connected k) (pipe_out k) (endresp k)))
+  | PSetHello e => let k := w_cs w in (tt, with_cs w (mkCs true e (ext k) (sc_tls k) (connected k) (pipe_out k) (endresp k) (mu_held k) (mu_ok k)))
+  | PSetExt x => let k := w_cs w in (tt, with_cs w (mkCs (didHello k) (helloErr k) x (sc_tls k) (connected k) (pipe_out k) (endresp k) (mu_held k) (mu_ok k)))
   | PSetScTls =>   (* StartTLS: c.Text = textproto.NewConn(tls conn): a fresh pipeline *)
-      let k := w_cs w in (tt, with_cs w (mkCs (didHello k) (helloErr k) (ext k) true (connected k) O (endresp k)))
-  | PSetConnected => let k := w_cs w in (tt, with_cs w (mkCs (didHello k) (helloErr k) (ext k) (sc_tls k) true (pipe_out k) (endresp k)))
+      let k := w_cs w in (tt, with_cs w (mkCs (didHello k) (helloErr k) (ext k) true (connected k) O (endresp k) (mu_held k) (mu_ok k)))
+  | PSetConnected => let k := w_cs w in (tt, with_cs w (mkCs (didHello k) (helloErr k) (ext k) (sc_tls k) true (pipe_out k) (endresp k) (mu_held k) (mu_ok k)))
   end.
 
 (* programs *)
@@ -846,6 +907,9 @@ Definition send_single (cfg : config) (n : nat) : prog (res unit) :=
             else Ret (Err ESend)
         | Ok _ =>
             (* WriteTo + dataCloser.Close: one flush of content and dot (its failure is ignored), then the reply is read *)
+            wc <- prim1 PWriteContent ;;
+            match wc with
+            | WOk =>
             prim1 (PWrite VEod) ;;;
             r <- prim1 PRead ;;
             match classify 250 r with
@@ -853,6 +917,10 @@ Definition send_single (cfg : config) (n : nat) : prog (res unit) :=
             | Ok _ =>
                 x <- reset_client cfg ;;
                 Ret (match x with Err _ => Err ESend | Ok _ => Ok tt end)
+            end
+            | _ =>
+                (* the content could not be written: the only way out of DATA mode is to drop the connection *)
+                (if fx_send cfg then prim1 PClientClose else Ret tt) ;;; Ret (Err ESend)
             end
         end
   end.
@@ -942,7 +1010,7 @@ Definition session2 (fuel : nat) (cfg : config) (msgs : list nat) : prog (list (
 (* running against a fresh world *)
 
 Definition srv0 (sc : list decision) (mu : option nat) (cp cpt : list bytes) (h : hs_oracle) : srv :=
-  mkSrv sc mu cp cpt h true false None false false false [] [] O.
+  mkSrv sc mu cp cpt h true false None false false false [] [] O None.
 
 Definition world0 (s : srv) : world := mkW s conn0 cs0 [] clk0.
 
@@ -958,6 +1026,7 @@ Definition src_fx_arm : bool :=
 Definition src_fx_send : bool := Gen.send_aborts_on_failed_rset.
 Definition src_cmd_endresp : bool := Gen.smtp_cmd_endresponse_always.
 Definition src_fallback_same : bool := Gen.fallback_dial_same_as_primary.
+Definition src_mutex_released : bool := Gen.smtp_mutex_released_always.
 (* no other deadline call exists (nothing clears or shortens the deadline) and each one is now + the timeout *)
 Definition src_deadline_sites_ok : bool := (Gen.deadline_call_sites =? 2) && Gen.deadline_args_are_timeout.
 
